@@ -113,6 +113,19 @@ def run(model, col, tier):
         # literal guard
         guards = [n for n in ast.walk(f) if isinstance(n, ast.If) and "isinstance" in unparse(n.test) and "LiteralExpression" in unparse(n.test)]
         col.check(bool(guards), "R13.6", f"{OOB}::_ValidateArrayExpression literal test", "constant indices are recognised as ast.LiteralExpression", None, OOB, f)
+        # every constant index reaches the comparison: no exit between the literal test and the bounds test
+        skipping = []
+        nlit = 0
+        for evs, status in paths(f.body):
+            conds_ = [e for e in evs if e.kind == "cond"]
+            lit = any(e.val and "isinstance" in unparse(e.node) and "LiteralExpression" in unparse(e.node) for e in conds_)
+            if not lit or status == "raise":
+                continue
+            nlit += 1
+            if not any(e.node is rif.test for e in conds_):
+                skipping.append([(" ".join(unparse(e.node).split())[:40], e.val) for e in conds_])
+        col.check(nlit > 0 and not skipping, "R13.1", f"{OOB}::_ValidateArrayExpression every constant index is compared", "all paths with a literal index evaluate the bounds test",
+                  f"a path with a literal index leaves before the bounds test (conditions {skipping[0] if skipping else ''}): constant indices into some kinds of value (array / vector / matrix) are never checked", OOB, f)
         # ---- R13.2 which dimension
         ctf = model.cls(CT, "ComputeTypeVisitor").own_method("_ProcessExpression")
         dropped = None
@@ -184,11 +197,27 @@ def run(model, col, tier):
 
         calls = {f"types.{c}": (lambda c=c: T(c)) for c in classes}
         calls.update({"isinstance": lambda a, b: (a.n in ([x.n for x in b] if isinstance(b, tuple) else [b.n]))})
+        # a test on an attribute assigned just before (self.flag = <expr>; if not self.flag) is folded through the assignment
+        attr_vals = {}
+        for n in walk_no_nested(f3):
+            if isinstance(n, ast.Assign) and isinstance(n.targets[0], ast.Attribute) and n.lineno < rif3.lineno:
+                attr_vals.setdefault(unparse(n.targets[0]), []).append(n.value)
+
+        class _AttrSubst(ast.NodeTransformer):
+            def visit_Attribute(self, node):
+                vs = attr_vals.get(unparse(node))
+                if vs and len(vs) == 1 and isinstance(node.ctx, ast.Load):
+                    return vs[0]
+                return self.generic_visit(node)
+
+        import copy as _copy
+
+        test3 = ast.fix_missing_locations(_AttrSubst().visit(_copy.deepcopy(rif3.test)))
         for c in classes:
             env = {tname or "rhsType": T(c)}
             env.update({f"types.{k}": T(k) for k in classes})
             try:
-                res[c] = bool(ev(rif3.test, env, calls))
+                res[c] = bool(ev(test3, env, calls))
             except CannotEval as e:
                 raise AnalysisError(f"{IDX}: rejection condition `{unparse(rif3.test)}` cannot be folded ({e})")
         want = {"Integer": False, "UnsignedInteger": False, "Float": True}
@@ -370,6 +399,25 @@ def run(model, col, tier):
                 called = any(isinstance(c, ast.Call) and last_attr(c) == fn.name for m in v.methods.values() for c in ast.walk(m))
                 if called:
                     helper_raises.append(fn.name)
+        # the flag is sticky: once cleared it stays cleared (outside __init__ it is only ever assigned the constant False)
+        resets = []
+        for mname_, m in v.methods.items():
+            if mname_ == "__init__":
+                continue
+            for n in ast.walk(m):
+                if isinstance(n, (ast.Assign, ast.AugAssign, ast.AnnAssign)):
+                    tg = n.targets if isinstance(n, ast.Assign) else [n.target]
+                    if any(isinstance(t_, ast.Attribute) and t_.attr == "valid" for t_ in tg):
+                        val_ = n.value
+                        sticky = (isinstance(n, ast.AugAssign) and isinstance(n.op, ast.BitAnd)) or \
+                                 (not isinstance(n, ast.AugAssign) and isinstance(val_, ast.Constant) and val_.value is False) or \
+                                 (not isinstance(n, ast.AugAssign) and isinstance(val_, ast.BoolOp) and isinstance(val_.op, ast.And)
+                                  and any(isinstance(x, ast.Attribute) and x.attr == "valid" for x in val_.values))
+                        if not sticky:
+                            resets.append(n)
+        col.check(not resets, "R13.5", f"{rel}::{v.name} flag is sticky", "outside __init__ `valid` is only ever set to False",
+                  f"`{unparse(resets[0])[:70] if resets else ''}` assigns a computed value to `valid`: a later node that passes the test sets the flag back to True, so the verdict is that of the "
+                  "last visited node, not of the whole program", rel, resets[0] if resets else v.node)
         if withs and all_cb:
             col.ok("R13.5", f"{rel}::{v.name} errors clear the flag", f"all {len(withs)} error-swallowing region(s) have a callback that clears `valid`")
         else:
@@ -387,6 +435,23 @@ def run(model, col, tier):
     for pname in ("ValidateArrayAccessType", "ValidateArrayOutOfBoundsAccess", "ValidateSwizzle"):
         col.check(pname in ap and "ComputeTypes" in ap and ap.index("ComputeTypes") < ap.index(pname), "R13.5", f"nsl/Compiler.py::astPasses order ComputeTypes < {pname}",
                   "types are computed before the validator reads them", f"{pname} does not run after ComputeTypes", "nsl/Compiler.py", pipe.cls.node)
+    # ... and before every pass that wraps expressions in (implicit) casts: the validators discriminate on the index expression's
+    # own class (literal or not) and on its own static type, a cast inserted around it hides both
+    inserters = []
+    for pname in ap:
+        try:
+            pf = model.file(pipe.pass_file(pname))
+        except Exception:
+            continue
+        if any(isinstance(c, ast.Call) and last_attr(c) == "CastExpression" for c in ast.walk(pf.tree)):
+            inserters.append(pname)
+    col.floor("R13.5", "cast-inserting AST passes", len(inserters), 1)
+    for pname in ("ValidateArrayAccessType", "ValidateArrayOutOfBoundsAccess"):
+        late = [i_ for i_ in inserters if pname in ap and ap.index(i_) < ap.index(pname)]
+        col.check(pname in ap and not late, "R13.5", f"nsl/Compiler.py::astPasses order {pname} < cast insertion",
+                  f"the validator sees the index expressions as written (cast-inserting passes {inserters} run later)",
+                  f"{late} runs before {pname}: index expressions are already wrapped in implicit casts, so a float index has type int and a literal index is no longer a literal node - both escape the check",
+                  "nsl/Compiler.py", pipe.cls.node)
     # ---------------- R13.6 literal detection ------------------------------------------
     rx = G.lexer.token_regex("INT_CONST_DEC")
     col.check(rx is not None and re.fullmatch(rx, "-1") is not None and re.fullmatch(rx, "12") is not None, "R13.6", f"{LEXER}::decimal_constant",
